@@ -15,6 +15,9 @@ pub struct ClientCfg {
     pub mem_channel_bound: usize,
     pub high_water: usize,
     pub low_water: usize,
+    /// ConnectionOptions::connection_timeout in milliseconds (None = no timeout)
+    #[serde(default)]
+    pub connection_timeout_ms: Option<u64>,
 }
 
 impl Default for ClientCfg {
@@ -26,6 +29,7 @@ impl Default for ClientCfg {
             mem_channel_bound: 16,
             high_water: 16 << 20,
             low_water: 0,
+            connection_timeout_ms: None,
         }
     }
 }
@@ -36,6 +40,7 @@ impl ClientCfg {
             .channel_max(self.channel_max)
             .frame_max(self.frame_max)
             .heartbeat(self.heartbeat)
+            .connection_timeout(self.connection_timeout_ms.map(Duration::from_millis))
     }
     pub fn tuning(&self) -> ConnectionTuning {
         ConnectionTuning::default()
